@@ -188,21 +188,22 @@ Section ExpGram.
   Definition kahan_U (K n : nat) : mat :=
     mk n n (fun i j => if Nat.leb i j then kahan_col K j (j - i) else 0).
   Definition kahan_odds (K n : nat) : vec := mkv n (fun i => fnat (K + 1 + 2 * i)).
+  Definition kahan_finv (K n : nat) : vec := mkv n (fun j => finv (kahan_f K j)).   (* f = 1.0 / f *)
   (* SQUARED entries of the returned factor L = tril((U * dr[:,None] * f[None,:])^T) *)
   Definition kahan_L2 (K n : nat) : mat :=
+    let U := kahan_U K n in let od := kahan_odds K n in let fi := kahan_finv K n in
     mk n n (fun j i =>
-      if Nat.leb i j
-      then fsq (mget (kahan_U K n) i j) * vget (kahan_odds K n) i * fsq (finv (kahan_f K j))
-      else 0).
-  (* L L^T: sum_i U[i][j] U[i][j'] odds[i] / (f[j] f[j']) *)
+      if Nat.leb i j then fsq (mget U i j) * vget od i * fsq (vget fi j) else 0).
+  (* L L^T: sum_i U[i][j] U[i][j'] odds[i] * f[j] f[j'] *)
   Definition kahan_gram (K n : nat) : mat :=
+    let U := kahan_U K n in let od := kahan_odds K n in let fi := kahan_finv K n in
     mk n n (fun j j' =>
-      vsum n (fun i => mget (kahan_U K n) i j * mget (kahan_U K n) i j' * vget (kahan_odds K n) i)
-      * finv (kahan_f K j) * finv (kahan_f K j')).
+      vsum n (fun i => mget U i j * mget U i j' * vget od i) * vget fi j * vget fi j').
   Definition hilbert (K n : nat) : mat := mk n n (fun i j => 1 / fnat (i + j + K + 1)).
   (* system_matrices_1d_iwp: Q_1d = qr_r(flip(L, axis=0)^T)^T ; Gram = flipped Gram *)
   Definition kahan_gram_flip (q : nat) : mat :=
-    mk (S q) (S q) (fun i j => mget (kahan_gram 0 (S q)) (q - i) (q - j)).
+    let G := kahan_gram 0 (S q) in
+    mk (S q) (S q) (fun i j => mget G (q - i) (q - j)).
 
   (* ------------------------------------------------- exponential priors *)
   (* state = Taylor coefficients (derivatives) x_0..x_q, each in F^d, coefficient-major.
